@@ -4,6 +4,7 @@ import (
 	"fmt"
 	"go/token"
 	"go/types"
+	"sort"
 	"strings"
 
 	"golang.org/x/tools/go/ssa"
@@ -337,4 +338,114 @@ func ruleSeekTrial(r *Report) {
 
 func errorIface() *types.Interface {
 	return types.Universe.Lookup("error").Type().Underlying().(*types.Interface)
+}
+
+// R-skip-bounded: skipping a record moves the file position with Seek, and seeking behind the end of a file succeeds.
+// A record whose payload was cut off is then "skipped" without an error although reading it fails — skip is no longer
+// read-and-discard, and counting with SkipNext sees one record more than the file contains. Every skip must check the
+// target against the file size first.
+func ruleSkipBounded(r *Report) {
+	const rule = "skip-bounded"
+	r.Rule(rule, 4, "in every SkipNext flavour the seek to the end of the skipped record happens only after a successful check of that offset against the file size (os.File.Stat)")
+	p := r.P
+	o := &order{r, p}
+	for _, k := range []string{"recordio.FileReader.SkipNext", "recordio.SkipNextV1", "recordio.SkipNextV2", "recordio.SkipNextV3"} {
+		fn := r.NeedFunc(rule, k)
+		if fn == nil {
+			continue
+		}
+		B := CallsIn(fn, Keys("os.File.Seek"))
+		if len(B) == 0 {
+			continue // delegates to a version-specific flavour
+		}
+		var A []Site
+		eachInstr(fn, func(s Site) {
+			c, ok := s.Instr.(*ssa.Call)
+			if !ok {
+				return
+			}
+			if CalleeKey(c) == "os.File.Stat" {
+				A = append(A, s)
+				return
+			}
+			if sc := c.Call.StaticCallee(); sc != nil && inModule(sc) {
+				for _, g := range moduleReach(p, []*ssa.Function{sc}) {
+					if len(CallsIn(g, Keys("os.File.Stat"))) > 0 {
+						A = append(A, s)
+						return
+					}
+				}
+			}
+		})
+		key := rule + "/" + k
+		if len(A) == 0 {
+			r.Bad(rule, key, B[0].Pos(), "the skip seeks to the computed end of the record without comparing it with the file size: on a file cut inside a payload SkipNext returns nil (seeking past the end succeeds) where ReadNext fails, and the record counts as present")
+			continue
+		}
+		o.OnlyAfterSuccess(rule, key, fn, "the size check", A, "the seek", B, nil)
+	}
+}
+
+// R-skip-read-siblings: SkipNext is "read and discard", so the two flavours must treat a header parse failure alike.
+// ReadNext takes a marker mismatch followed only by zero bytes for the end of a block-aligned (direct-I/O) file;
+// a SkipNext that does not reports "magic number mismatch" at the end of every such file.
+func ruleSkipReadSiblings(r *Report) {
+	const rule = "skip-read-siblings"
+	r.Rule(rule, 3, "each SkipNext flavour classifies the same sentinels of the record header parse as its ReadNext sibling (in particular the marker mismatch that the zero padding of block-aligned files produces)")
+	classified := func(fn *ssa.Function) map[string]bool {
+		out := map[string]bool{}
+		for _, hs := range CallsIn(fn, func(k string) bool { return strings.HasPrefix(k, "recordio.readRecordHeaderV") }) {
+			al := errAliases(hs)
+			for _, b := range liveBlocks(fn) {
+				if v, g, _, _, ok := sentinelTest(b); ok && al[v] {
+					out[g] = true
+				}
+			}
+			// one level of helper that receives the error
+			eachInstr(fn, func(s Site) {
+				c, ok := s.Instr.(*ssa.Call)
+				if !ok {
+					return
+				}
+				sc := c.Call.StaticCallee()
+				if sc == nil || !inModule(sc) || sc.Blocks == nil {
+					return
+				}
+				for i, a := range c.Call.Args {
+					if !al[a] && !al[stripIface(a)] {
+						continue
+					}
+					if i >= len(sc.Params) {
+						continue
+					}
+					for _, b := range liveBlocks(sc) {
+						if v, g, _, _, ok := sentinelTest(b); ok && paramOrigin(v) == sc.Params[i] {
+							out[g] = true
+						}
+					}
+				}
+			})
+		}
+		return out
+	}
+	for _, pair := range [][2]string{{"recordio.FileReader.ReadNext", "recordio.FileReader.SkipNext"}, {"recordio.readNextV2", "recordio.SkipNextV2"}, {"recordio.readNextV3", "recordio.SkipNextV3"}} {
+		rd, sk := r.NeedFunc(rule, pair[0]), r.NeedFunc(rule, pair[1])
+		if rd == nil || sk == nil {
+			continue
+		}
+		key := rule + "/" + pair[1]
+		cr, cs := classified(rd), classified(sk)
+		var missing []string
+		for g := range cr {
+			if !cs[g] {
+				missing = append(missing, g)
+			}
+		}
+		sort.Strings(missing)
+		if len(missing) > 0 {
+			r.Bad(rule, key, sk.Pos(), fmt.Sprintf("%s classifies %s of the header parse, %s does not: at the zero-padded end of a file written with DirectIO ReadNext returns io.EOF and SkipNext returns \"magic number mismatch\"", pair[0], strings.Join(missing, ", "), pair[1]))
+		} else {
+			r.OK(rule, key, sk.Pos(), fmt.Sprintf("same header-failure classification as %s (%d sentinel(s))", pair[0], len(cr)))
+		}
+	}
 }
